@@ -317,11 +317,110 @@ def clause_e(rep, F):
     rep.floor("functions that consume a line break", n, 1)
 
 
+def _flow_guard(f, bi):
+    t = f.blocks[bi]["term"]
+    if t["k"] != "switch" or t["dty"] != "bool" or t["vals"] != [0]:
+        return None
+    e = cfg.expr_operand(f, t["discr"], 6)
+    tt, ft = t["otherwise"], t["targets"][0]
+    while e[0] == "un" and e[1] == "Not":
+        e = e[2]
+        tt, ft = ft, tt
+    if e[0] == "bin" and cfg.expr_fields(e[2]) == ["flow_level"] and e[3] == ("const", 0):
+        if e[1] in ("Gt", "Ne"):
+            return {tt: "POS", ft: "ZERO"}
+        if e[1] == "Eq":
+            return {tt: "ZERO", ft: "POS"}
+    return None
+
+
+def clause_f(rep, F):
+    """The indentation bookkeeping (roll_indent, roll_one_col_indent, unroll_indent) does nothing inside a flow collection: each of these
+    functions returns at once when flow_level > 0.  The guards 'a flow collection continued no deeper than its enclosing block' and 'tab
+    as indentation' depend on the indents they push, so a call to one of them that is reached only with flow_level >= 1 (after a
+    successful increase_flow_level, or under a `flow_level > 0` test, with no possible decrease in between) can have no effect and the
+    guard it was written for is lost.  Must-analysis over {unknown, zero, positive} for flow_level along every path of every scanner
+    function."""
+    from engine import callgraph
+    S = SCANNER + "::"
+    edges, _ = callgraph.build(F)
+    writers = {k for k, f in F.fns.items() if f.crate == "saphyr_parser" and cfg.field_writes(f, SCANNER, "flow_level")}
+    maywrite = {k for k in F.fns if k in writers or (set(callgraph.reachable(edges, [k])) & writers)}
+    inert = set()
+    for k, f in F.fns.items():
+        if f.d.get("impl_adt") != SCANNER or f.kind != "AssocFn" or f.d.get("output") not in ("()", None) and f.locals[0]["ty"] != "()":
+            continue
+        if f.locals[0]["ty"] != "()" or not any(_flow_guard(f, b) for b in range(len(f.blocks))):
+            continue
+        seen, st = set(), [0]
+        while st:
+            b = st.pop()
+            if b in seen or f.blocks[b]["cleanup"]:
+                continue
+            seen.add(b)
+            g = _flow_guard(f, b)
+            for sx in f.succs(b):
+                if g and g.get(sx) == "ZERO":
+                    continue
+                st.append(sx)
+        eff = False
+        for b in seen:
+            blk = f.blocks[b]
+            if blk["term"]["k"] == "call":
+                eff = True
+            for s_ in blk["stmts"]:
+                if s_["k"] == "assign" and s_["lhs"]["l"] == 1 and s_["lhs"]["p"]:
+                    eff = True
+        if not eff:
+            inert.add(k)
+    rep.floor("indentation functions that are inert inside flow collections", len(inert), 3)
+    rep.extra["flow_inert_functions"] = sorted(short(k) for k in inert)
+    n = 0
+    for k, f in sorted(F.fns.items()):
+        if f.d.get("impl_adt") != SCANNER or not any(ck in inert for _, _, ck, _ in f.calls()):
+            continue
+        IN = {0: "UNK"}
+        work = [0]
+        at = {}
+        while work:
+            b = work.pop()
+            st = IN[b]
+            t = f.blocks[b]["term"]
+            if t["k"] == "call":
+                fr = t["f"].get("fn")
+                ck = (fr.get("resolved") or fr["key"]) if fr else None
+                at[b] = st
+                if ck == S + "increase_flow_level":
+                    st = "POS"
+                elif ck in maywrite:
+                    st = "UNK"
+            g = _flow_guard(f, b)
+            for sx in f.succs(b):
+                if f.blocks[sx]["cleanup"]:
+                    continue
+                ns = g.get(sx, st) if g else st
+                if g and st != "UNK" and g.get(sx) and g.get(sx) != st:
+                    continue
+                old = IN.get(sx)
+                new = ns if old is None else (old if old == ns else "UNK")
+                if new != old:
+                    IN[sx] = new
+                    work.append(sx)
+        for bb, t, ck, fr in f.calls():
+            if ck in inert:
+                n += 1
+                rep.check(at.get(bb) != "POS", "indent-call-live", "%s->%s" % (short(k).split("::")[-1], short(ck).split("::")[-1]),
+                          "%s is called where flow_level >= 1 on every path, so it does nothing: the indentation it was meant to record (which "
+                          "rejects under-indented continuation lines and tab indentation) is lost" % short(ck).split("::")[-1], site=site(f, t["sp"]))
+    rep.floor("calls of the indentation functions", n, 8)
+
+
 def run(tier):
     rep = new_report(tier)
     F = facts.load()
     clause_a(rep, F)
     clause_e(rep, F)
+    clause_f(rep, F)
     clause_b(rep, F)
     clause_c(rep, F)
     clause_d(rep, F)
